@@ -133,6 +133,22 @@ func (r *EntityLocal) Features() []api.FeatureLocalInterface {
 	return r.features
 }
 
+// the use case helpers change the data in place, DataCopy only copies the first level:
+// give the copy its own lists, so data handed out before is not changed
+func ownUseCaseData(data *model.NodeManagementUseCaseDataType) *model.NodeManagementUseCaseDataType {
+	if data == nil {
+		return data
+	}
+
+	result := &model.NodeManagementUseCaseDataType{}
+	for _, item := range data.UseCaseInformation {
+		item.UseCaseSupport = append([]model.UseCaseSupportType(nil), item.UseCaseSupport...)
+		result.UseCaseInformation = append(result.UseCaseInformation, item)
+	}
+
+	return result
+}
+
 // add a new usecase
 func (r *EntityLocal) AddUseCaseSupport(
 	actor model.UseCaseActorType,
@@ -151,6 +167,7 @@ func (r *EntityLocal) AddUseCaseSupport(
 	if err != nil {
 		data = &model.NodeManagementUseCaseDataType{}
 	}
+	data = ownUseCaseData(data)
 
 	address := model.FeatureAddressType{
 		Device: r.address.Device,
@@ -194,6 +211,7 @@ func (r *EntityLocal) SetUseCaseAvailability(
 	if err != nil {
 		return
 	}
+	data = ownUseCaseData(data)
 
 	address := model.FeatureAddressType{
 		Device: r.address.Device,
@@ -219,6 +237,7 @@ func (r *EntityLocal) RemoveUseCaseSupport(
 	if err != nil {
 		return
 	}
+	data = ownUseCaseData(data)
 
 	address := model.FeatureAddressType{
 		Device: r.address.Device,
@@ -241,6 +260,7 @@ func (r *EntityLocal) RemoveAllUseCaseSupports() {
 	if err != nil {
 		return
 	}
+	data = ownUseCaseData(data)
 
 	address := model.FeatureAddressType{
 		Device: r.address.Device,
